@@ -1236,6 +1236,68 @@ func main() {
 		}
 	}
 	run.Stats["exhaustive_cases"] = ncase
+	// 1b. directed family: commit order inverts start order on one key.  A transaction with the OLDER start ts
+	// (pessimistic: it locks the key at a for-update ts above the other's commit, so its prewrite is not a conflict)
+	// commits ABOVE a transaction with a newer start ts; the newer-start transaction's record is then buried under a
+	// record whose start ts is smaller.  Afterwards every late / repeated recovery request for both transactions, reads
+	// at timestamps between the records, and the never-both audit.
+	phase = "d"
+	nInv := 40
+	if run.Thorough() {
+		nInv = 400
+	}
+	for c := 0; c < nInv; c++ {
+		newCase(2)
+		base := uint64(10+g.r.Intn(5)) * 10 * phys
+		told := &txn{start: base, forUpdate: base + 4*10*phys, commit: base + 5*10*phys, finished: map[string]bool{}, locked: map[string]bool{}}
+		tnew := &txn{start: base + 10*phys, commit: base + 2*10*phys + uint64(g.r.Intn(3)), forUpdate: base + 10*phys, finished: map[string]bool{}, locked: map[string]bool{}}
+		k := g.key()
+		told.primary, tnew.primary = k, k
+		g.txns = []*txn{told, tnew}
+		g.tsAt = []uint64{told.start, tnew.start, tnew.commit, told.forUpdate, told.commit, base + 3*10*phys, base + 7*10*phys}
+		if g.r.Chance(50) { // an older committed version underneath
+			do(fmt.Sprintf("prewrite %s %d 0 5 0 1 0 - 0:%s:7600:0:0", hx(k), base-5*10*phys, hx(k)))
+			do(fmt.Sprintf("commit %s %d %d", hx(k), base-5*10*phys, base-4*10*phys))
+		}
+		switch g.r.Intn(3) {
+		case 0:
+			do(fmt.Sprintf("prewrite %s %d 0 5 0 1 0 - 0:%s:7611:0:0", hx(k), tnew.start, hx(k)))
+			do(fmt.Sprintf("commit %s %d %d", hx(k), tnew.start, tnew.commit))
+		case 1: // the newer-start transaction is rolled back instead: a marker gets buried
+			do(fmt.Sprintf("prewrite %s %d 0 5 0 1 0 - 0:%s:7611:0:0", hx(k), tnew.start, hx(k)))
+			do(fmt.Sprintf("rollback %s %d", hx(k), tnew.start))
+		default: // a lock-only record of the newer-start transaction
+			do(fmt.Sprintf("prewrite %s %d 0 5 0 1 0 - 2:%s:~:0:0", hx(k), tnew.start, hx(k)))
+			do(fmt.Sprintf("commit %s %d %d", hx(k), tnew.start, tnew.commit))
+		}
+		tnew.finished[string(k)] = true
+		do(fmt.Sprintf("plock %s %d %d 5 0 r 5:%s:~:0:0", hx(k), told.start, told.forUpdate, hx(k)))
+		do(fmt.Sprintf("prewrite %s %d %d 5 0 1 0 - 0:%s:7622:0:1", hx(k), told.start, told.forUpdate, hx(k)))
+		do(fmt.Sprintf("commit %s %d %d", hx(k), told.start, told.commit))
+		told.finished[string(k)] = true
+		do("dumpall")
+		for _, t := range []*txn{tnew, told, tnew} {
+			switch g.r.Intn(6) {
+			case 0:
+				do(fmt.Sprintf("idem commit %s %d %d", hx(k), t.start, t.commit))
+			case 1:
+				do(fmt.Sprintf("idem rollback %s %d", hx(k), t.start))
+			case 2:
+				do(fmt.Sprintf("idem status %s %d %d %d %s 0", hx(k), t.start, g.anyTS(), g.anyTS(), b01(g.r.Bool())))
+			case 3:
+				do(fmt.Sprintf("marker cleanup %s %d 0", hx(k), t.start))
+			case 4:
+				do(fmt.Sprintf("late %s %d", hx(k), t.start))
+			default:
+				do(fmt.Sprintf("idem resolve ~ ~ %d 0", t.start))
+			}
+		}
+		do(fmt.Sprintf("scaneq ~ ~ %s 1 - %s", g.readTS(), hexList(keyPool)))
+		do(fmt.Sprintf("get %s %d 1 -", hx(k), g.anyTS()))
+		do("audit")
+		do("dumpall")
+	}
+	run.Stats["inversion_cases"] = nInv
 	phase = "r"
 	// 2. random sequences over the full alphabet
 	for c := 0; c < nRand; c++ {
@@ -1291,6 +1353,28 @@ func main() {
 			}
 			if g.r.Chance(10) {
 				do("dumpall")
+			}
+		}
+		// epilogue: late and repeated recovery requests for every transaction of the case, on every key (what confused
+		// resolvers, retried RPCs and GC send long after a transaction ended), then the never-both audit.  A store
+		// that loses track of a transaction's record under newer or older versions shows up here as a property failure.
+		if g.r.Chance(70) {
+			for _, t := range g.txns {
+				for _, k := range keyPool {
+					t.finished[string(k)] = true
+				}
+				switch g.r.Intn(5) {
+				case 0:
+					do(fmt.Sprintf("idem commit %s %d %d", hexList(g.txnKeys(t, 1)), t.start, t.commit))
+				case 1:
+					do(fmt.Sprintf("idem rollback %s %d", hexList(g.keys(1+g.r.Intn(2))), t.start))
+				case 2:
+					do(fmt.Sprintf("idem status %s %d %d %d 1 0", hx(t.primary), t.start, g.anyTS(), g.anyTS()))
+				case 3:
+					do(fmt.Sprintf("marker cleanup %s %d 0", hx(g.key()), t.start))
+				default:
+					do(fmt.Sprintf("idem resolve ~ ~ %d 0", t.start))
+				}
 			}
 		}
 		do("audit")
